@@ -95,8 +95,77 @@ func rootOf(v ssa.Value) ssa.Value {
 }
 
 func isFreshAlloc(v ssa.Value, fn *ssa.Function) bool {
-	al, ok := v.(*ssa.Alloc)
-	return ok && al.Parent() == fn
+	if al, ok := v.(*ssa.Alloc); ok {
+		return al.Parent() == fn
+	}
+	// the result of a helper that hands out an object it has just allocated
+	// and kept no other reference to is as fresh as an allocation made here
+	if c, ok := v.(*ssa.Call); ok && c.Parent() == fn {
+		if g := c.Common().StaticCallee(); g != nil && InModule(g) && returnsFresh(g, 0) {
+			return true
+		}
+	}
+	return false
+}
+
+// returnsFresh reports whether every return of g yields (as its only result)
+// an object allocated in g - or handed out fresh by another such helper - to
+// which g keeps no other reference: the allocation is only written through,
+// read and returned.
+func returnsFresh(g *ssa.Function, depth int) bool {
+	if g.Blocks == nil || depth > 2 || g.Signature.Results().Len() != 1 {
+		return false
+	}
+	found := false
+	for _, b := range g.Blocks {
+		for _, instr := range b.Instrs {
+			ret, ok := instr.(*ssa.Return)
+			if !ok {
+				continue
+			}
+			found = true
+			switch x := ret.Results[0].(type) {
+			case *ssa.Alloc:
+				if x.Parent() != g || !onlyLocalUse(x) {
+					return false
+				}
+			case *ssa.Call:
+				h := x.Common().StaticCallee()
+				if h == nil || !InModule(h) || !returnsFresh(h, depth+1) || !onlyLocalUse(x) {
+					return false
+				}
+			default:
+				return false
+			}
+		}
+	}
+	return found
+}
+
+// onlyLocalUse: the pointer is used to address fields, as the target of a
+// store, for loads, and as a returned value - never stored anywhere, passed
+// on or merged with another pointer.
+func onlyLocalUse(v ssa.Value) bool {
+	refs := v.Referrers()
+	if refs == nil {
+		return true
+	}
+	for _, ref := range *refs {
+		switch x := ref.(type) {
+		case *ssa.DebugRef, *ssa.Return, *ssa.UnOp:
+		case *ssa.FieldAddr:
+			if x.X != v {
+				return false
+			}
+		case *ssa.Store:
+			if x.Addr != v || x.Val == v {
+				return false
+			}
+		default:
+			return false
+		}
+	}
+	return true
 }
 
 var readOnlyPkgs = map[string]bool{"fmt": true, "strings": true, "strconv": true, "unicode": true, "unicode/utf8": true,
